@@ -177,10 +177,16 @@ def _wire(ctx):
         cur = 0
         for k in range(ctx.scale(40, 600)):
             cls = r.choice(gen.all_command_classes())
-            f = gen.gen_cmd(cls, r).to_frame() if r.random() < 0.7 else r.choice(
+            cmd_obj = gen.gen_cmd(cls, r)
+            pre = cmd_obj.to_frame().serialize()
+            f = cmd_obj.to_frame() if r.random() < 0.7 else r.choice(
                 gen.big_request(r, r.randrange(300, 900)).to_frame().handle_tx_fragmentation())
             m = w.mark()
             w.start_send(k, f)
+            post = cmd_obj.to_frame().serialize()
+            if post != pre:
+                ctx.counterexample("frame-of-command-changed-by-sending", dict(cls=cls.__qualname__), hx(pre[:16]), hx(post[:16]),
+                                   "the frame a command builds differs after an earlier frame of the same command was transmitted")
             how = r.choice(["ack", "ack", "expire", "wrong-then-expire", "expire-late-ack", "dup-ack"])
             if how == "ack":
                 w.rx(streams.ack(cur)); cur = cur % 3 + 1
